@@ -296,6 +296,7 @@ class RF24:
             self.flush_rx()
         self.clear_status_flags()
         self.ce_pin = 1
+        self.update()  # the cached STATUS predates clear_status_flags()
         while not self._status & 0x30:
             self.update()
         result = bool(self._status & 0x20)
